@@ -145,7 +145,13 @@ func (s *Spec) Atoms(o LayoutOpts) []Atom {
 			add('O', ":")
 		}
 		prevWord := false
-		for _, x := range r.R {
+		for xi, x := range r.R {
+			for _, m := range r.Mid {
+				if m.After == xi {
+					add('O', "{"+m.Text+"}")
+					prevWord = false
+				}
+			}
 			g := byte('O')
 			if prevWord && !IsLit(x) {
 				g = 'W'
